@@ -88,6 +88,7 @@ class Harness:
         self._install_snapshot()
         # force the storage decision (flat) with a trivial run: the program's own entry halts immediately
         signal.signal(signal.SIGALRM, self._alarm)
+        signal.signal(signal.SIGPROF, self._alarm)
         self._run(0)
         self.baseline = self.snapshot()
         self.current = self.baseline  # the last accepted image (other blocks' residues included)
@@ -143,10 +144,13 @@ class Harness:
         self.io_out.append(1 if b else 0)
 
     def _run(self, start_ip, timeout=5.0):
-        signal.setitimer(signal.ITIMER_REAL, timeout)
+        # CPU-time budget (a loaded machine must not look like a non-terminating block) + a wall-clock backstop
+        signal.setitimer(signal.ITIMER_PROF, timeout)
+        signal.setitimer(signal.ITIMER_REAL, max(60.0, 30 * timeout))
         try:
             return self.mem.run(self._read_bit, self._write_bit, EOFError, last_ops_length=1, start_ip=start_ip)
         finally:
+            signal.setitimer(signal.ITIMER_PROF, 0)
             signal.setitimer(signal.ITIMER_REAL, 0)
 
     # ---- variables
